@@ -22,8 +22,8 @@ from ..core import enc, dec, close, call_with_oracle
 from feems.system_model import HybridPropulsionSystem, ElectricPowerSystem, MechanicalPropulsionSystem
 
 THEOREMS = ["final_with_second_pass", "final_with_rebalance", "balancing_consistent", "balancing_legacy_gap", "final_without_second_pass", "electric_consistency", "shaft_consistency", "balances_within",
-            "loss_pair", "full_pti", "same_machine"]
-DEPENDS_ON_MODULES = ["FeemsProofs.C06"]
+            "loss_pair", "full_pti", "same_machine", "repeated_shaft_balance", "repeated_avail", "repeated_shaft_balance_legacy_gap"]
+DEPENDS_ON_MODULES = ["FeemsProofs.C06", "FeemsProofs.C04"]
 BAL = E.STORAGE_KINDS + ("pti_pto",)
 D16 = "hybrid-balance-pti-outside-covered-range"       # known finding D16 as it shows in the hybrid balance
 
@@ -49,6 +49,15 @@ def run_case(ctx, case, model=True):
     # the shaft lines are balanced once more when a second electric pass ran and some PTI/PTO shares the bus load
     rebalance = any_full and any(any(m == 0 for m in R.elec_inputs(case)["comp"][p["name"]]["mode"]) for p in ptis)
     ctx.count("second_shaft_pass", rebalance)
+    # ---- correspondence of the last shaft balance (Shaft.Line.again): with the status series that were given and the PTI/PTO's
+    # final shaft power, the engines' outputs are those of `Shaft.balance` (when a second electric pass ran without a second
+    # shaft balance, the final shaft power is not the one the shaft lines were balanced with: skipped)
+    if model and ctx.model_available and (rebalance or not any_full):
+        mi2 = copy.deepcopy(mi)
+        for p in ptis:
+            mi2["comp"][p["name"]]["shaft"] = [float(x) for x in mobs[p["name"]]["out"]]
+        M.compare_with_model(ctx, spec, mi2, mobs, where, tagprefix="last-shaft-balance-")
+        ctx.count("last_shaft_balance_compared", "repeated" if rebalance else "single")
     for p in ptis:
         obj = plant.by_name[p["name"]]
         rated = p["rated"]
@@ -171,6 +180,27 @@ def make_balancing(rng, case):
         other = ptis[(k + 1) % len(ptis)]
         if not any(case["inputs"]["mech"][other["name"]]["full"]):
             case["inputs"]["mech"][other["name"]]["full"][int(rng.integers(n))] = True
+        if rng.random() < 0.5:
+            # a step at which nothing asks for power before the full-PTI machine does: no electrical load, the sharing machine's
+            # own shaft line at rest (its engines idle in the first shaft balance and are needed in the repeated one - D28)
+            t = case["inputs"]["mech"][other["name"]]["full"].index(True)
+            inp, spec = case["inputs"], case["spec"]
+            for c in spec["electric"]:
+                d = inp["comp"][c["name"]]
+                for key in ("load", "given"):
+                    if key in d:
+                        d[key][t] = 0.0
+                if "share" in d:
+                    d["share"][t] = 0.0
+            inp["mech"][other["name"]]["shaft"][t] = 0.0
+            for c in M.by_line(spec, chosen[0].get("shaft_line", 1), "mech_load"):
+                inp["mech"][c["name"]]["load"][t] = 0.0
+            for c in M.by_line(spec, chosen[0].get("shaft_line", 1), "main_engine"):
+                inp["mech"][c["name"]]["status"][t] = True
+            for c in M.by_line(spec, other.get("shaft_line", 1), "mech_load")[:1]:
+                if inp["mech"][c["name"]]["load"][t] == 0:
+                    inp["mech"][c["name"]]["load"][t] = float(np.round(0.3 * other["rated"], 0))
+            case["idle_step"] = t
     else:
         chosen = [c for c in ptis if rng.random() < 0.6]
     for c in chosen:
@@ -248,6 +278,7 @@ def run(ctx):
         cases.append(case)
     for ci, case in enumerate(cases):
         ok = run_case(ctx, case)
+        ctx.count("sharing_machine_idle_before_repeated_pass", "idle_step" in case)
         mi = R.mech_inputs(case)
         labels = [c.get("label") for c in case["spec"]["electric"] if c["kind"] == "pti_pto"]
         ctx.count("pti_pto_names", "shared" if len(set(labels)) < len(labels) else ("single" if len(labels) == 1 else "distinct"))
